@@ -10,7 +10,7 @@ EXPLANATION = (
     'finalize(hasher) == delta.checksum (R3), where the hasher was fed exactly the buffers that were written '
     '(R2), after Delta::validate returned Ok (R1, R5), copies being read_exact into a buffer sized by the op '
     '(R4); the CLI maps Err to a failure exit and nothing on the way of `copia patch` gives the output file a length other than what patch wrote (R7); no crate-local panic site is reachable from the patch entry '
-    'points on a hostile delta (R6). When hashing and the closing checks are delegated to an object shared by the engines, the same implication is decided on that object: its feeding method hashes its argument whenever verification is on, every written buffer is fed to it, and its closing method returns Ok only behind verify-off or finalize == checksum. (R7) main is judged on the executions where the command is patch: an Err of run() may be forgiven for another subcommand (serve ending because its peer hung up), never for patch. Not decided: nothing further at this level (BLAKE3 and Write::write_all are trusted).')
+    'points on a hostile delta (R6). When hashing and the closing checks are delegated to an object shared by the engines, the same implication is decided on that object: its feeding method hashes its argument whenever verification is on, every written buffer is fed to it, and its closing method returns Ok only behind verify-off or finalize == checksum. R3 accepts an equality helper of the crate instead of == and judges it: the per-element differences must be OR-ed (XOR / + lets differences cancel: reported). (R7) main is judged on the executions where the command is patch: an Err of run() may be forgiven for another subcommand (serve ending because its peer hung up), never for patch. Not decided: nothing further at this level (BLAKE3 and Write::write_all are trusted).')
 ASSUMPTIONS = ['blake3::Hasher implements BLAKE3', 'Write::write_all / AsyncWriteExt::write_all write exactly the given buffer',
                'dependencies do not panic on the inputs copia passes them']
 
